@@ -328,6 +328,27 @@ def known_set_accumulation(ctx, chk, rule):
             chk.ok(rule, DIRECT, f'`{k}`: {len(accs)} accumulation site(s) in the paging loop', detail='initialised once, only accumulated inside loops')
 
 
+def publish_handlers(ctx, chk, R1):
+    """ObjectWriter.__exit__: a failure to move a NEW object into loose/ may be handled only when the destination appeared meanwhile
+    (FileExistsError); shared by C09.R1 and C01.R2."""
+    prog, K = ctx.prog, ctx.kinds
+    # publishing a new object (destination absent): the only failure of the rename that may be handled is "the destination appeared meanwhile"
+    exw = prog.fn('utils:ObjectWriter.__exit__')
+    frw = K.top_frame(exw)
+    for tr in [n for n in walk_local(exw.node) if isinstance(n, ast.Try)]:
+        ren = [c for b in tr.body for c in ast.walk(b) if isinstance(c, ast.Call) and norm(c.func) in ('os.rename', 'os.link')]
+        if not ren or not any('loose' in areas(K, K.kind(c.args[1], frw)) for c in ren if len(c.args) > 1):
+            continue
+        from .c17 import always_raises, handler_types
+        for h in tr.handlers:
+            ts = handler_types(h)
+            if not always_raises(h.body) and set(ts) - {'FileExistsError'}:
+                chk.bad(R1, exw.qualname, f'except {", ".join(ts)} around {norm(ren[0])[:60]}', 'a failure to move a NEW object into loose/ (other than "the destination appeared meanwhile") is handled and the writer '
+                        'returns normally: the key is handed back although no loose file exists under it (the bytes only sit in duplicates/)', where=f'{exw.module.relpath}:{h.lineno}')
+            else:
+                chk.ok(R1, exw.qualname, f'except {", ".join(ts)} around the publishing rename', detail='only a concurrently appeared destination is tolerated', nontrivial=False)
+
+
 def run(ctx, host=None):
     chk = host.sub('C09') if host is not None else Check('C09', ctx)
     prog, K, E = ctx.prog, ctx.kinds, ctx.effects
@@ -365,6 +386,18 @@ def run(ctx, host=None):
                     'so re-adding the content no longer repairs a corrupted loose copy', where=f'{f2.module.relpath}:{f2.lineno}')
     else:
         chk.ok(R1, 'utils:ObjectWriter.__exit__', f'verifier(s) {sorted(m.verifiers)}', detail='the existing copy is re-read and re-hashed on every call (no memoised function on the chain)')
+    # the verifier answers "gone" (None) only when the file does not exist: any other failure to read the existing copy must not look like a vanished file
+    for vq, vf in sorted(m.verifiers.items()):
+        for tr in [n for n in walk_local(vf.node) if isinstance(n, ast.Try)]:
+            for h in tr.handlers:
+                returns_none = any(isinstance(x, ast.Return) and (x.value is None or (isinstance(x.value, ast.Constant) and x.value.value is None)) for x in ast.walk(ast.Module(body=h.body, type_ignores=[])))
+                ht = norm(h.type) if h.type is not None else '<bare>'
+                if returns_none and ht != 'FileNotFoundError':
+                    chk.bad(R1, vq, f'except {ht}: return None', f'the checksum helper reports an existing loose copy as vanished (None) on `{ht}`, not only on FileNotFoundError: a copy that cannot be read '
+                            '(locked, permissions, I/O error) is then kept as if it had been verified and the new, correct bytes are discarded', where=f'{vf.module.relpath}:{h.lineno}')
+                elif returns_none:
+                    chk.ok(R1, vq, 'except FileNotFoundError: return None', detail='only a vanished file counts as gone', nontrivial=False)
+    publish_handlers(ctx, chk, R1)
     # destination name is a function of the key only
     ex = prog.fn('utils:ObjectWriter.__exit__')
     bad_names = []
@@ -432,6 +465,25 @@ def run(ctx, host=None):
             chk.bad(R3, v.node.frame.fn.qualname, v.node.text(120), v.msg + f' [flags {consts}]', where=v.node.where, witness=v.witness)
         m4 = IterMachine(ctx, g)
         chk.require(m4.retname and m4.ret_appends and m4.pops and m4.stage, f'{DIRECT}: returned list / pop / staging sites not found')
+        if consts.get('no_holes') and not m4.known_names:
+            # is the membership test made against an attribute of the handle (a set that outlives the call)?
+            fnd = prog.fn(DIRECT)
+            def _handle_attr(e):
+                # `self.x` itself, or a local that is bound to `self.x` (an alias of a set kept on the handle)
+                if isinstance(e, ast.Attribute) and norm(e.value) == 'self':
+                    return True
+                if isinstance(e, ast.Name):
+                    return any(isinstance(a, ast.Assign) and isinstance(a.targets[0], ast.Name) and a.targets[0].id == e.id and isinstance(a.value, ast.Attribute) and norm(a.value.value) == 'self'
+                               for a in walk_local(fnd.node))
+                return False
+            attr_tests = [n for n in walk_local(fnd.node) if isinstance(n, ast.Compare) and len(n.ops) == 1 and isinstance(n.ops[0], (ast.In, ast.NotIn))
+                          and _handle_attr(n.comparators[0]) and _enclosing_loop(n) is not None]
+            if attr_tests:
+                r4bad = True
+                chk.bad(R4, DIRECT, norm(attr_tests[0])[:100], f'known content is recognised through `{norm(attr_tests[0].comparators[0])}`, a set kept on the handle between calls, instead of a set rebuilt '
+                        'from a complete listing of the index in this call: rows deleted or re-created meanwhile (SQLite reuses row ids) make it stale, so known content is written again or new content skipped',
+                        where=f'{fnd.module.relpath}:{attr_tests[0].lineno}')
+                continue
         if consts.get('no_holes'):
             chk.require(m4.known_names, f'{DIRECT}: the known-keys set (`key in <set>` test in the loop) was not found')
         viols, st = solve(g, m4)
